@@ -691,6 +691,9 @@ func (w *w2) failover(op simrt.Op) {
 	}
 	old := w.coord
 	old.Stop() // its cleanup loop retires with it; keeps the comparison free of timer ticks
+	// a cleanup tick that fired just before the stop may still be writing the group it changed: the
+	// comparison is between the coordinator and what it HAS stored, not what it is about to store
+	simrt.Sleep(time.Duration(w.cfg("store_lat_us", 300))*time.Microsecond*4 + 5*time.Millisecond)
 	ctx := context.Background()
 	// 2. a copy of the durable state for the old coordinator to keep mutating during the probes
 	clone := w.cloneStore()
@@ -866,7 +869,26 @@ func (w *w2) judgeFailoverContinuity() {
 				}
 			}
 			S := time.Duration(w.cfg("session_ms", 6000)) * time.Millisecond
-			if !quiet || first.tInvoke-last.tRet > S/2 {
+			// another member of the group that has been silent for a session timeout may legitimately
+			// have been expired (by either coordinator), which ends the generation
+			lastOf := map[int]time.Duration{}
+			for _, e := range all {
+				if e.group == last.group && e.actor != actor && e.tInvoke <= first.tRet && e.kind != "ofetch" {
+					if e.tRet > lastOf[e.actor] {
+						lastOf[e.actor] = e.tRet
+					}
+				}
+			}
+			for _, t := range lastOf {
+				// (that ends the generation for everybody - codes 22 / 27 - but never makes THIS member,
+				// which kept heartbeating, unknown: code 25 is not excused)
+				if first.tRet-t >= S-S/10 && first.code != 25 {
+					quiet = false
+				}
+			}
+			// whatever the others did, a member that kept heartbeating is never "unknown" (25) to the new
+			// coordinator; the other error codes (22, 27) can be the others' doing and need a quiet group
+			if (!quiet && first.code != 25) || first.tInvoke-last.tRet > S/2 {
 				continue
 			}
 			w.sim.Probe("c15.continuity-judged")
